@@ -1295,6 +1295,66 @@ class Program:
         def names_stored(nodes) -> Set[str]:
             return {x.id for n in nodes for x in ast.walk(n) if isinstance(x, ast.Name) and isinstance(x.ctx, ast.Store)}
 
+        def fold_membership(fnode, stmt):
+            """N21  what unrolling a table of constants leaves behind:  `K in (K, x)` -> True;  `K in (c, x)` -> `x == K`;
+                 `b == True` -> b, `b == False` -> not b for a local b that is bound once to `bool(..)` / a comparison / `not ..`;
+                 `X and True` -> X, `X and False` -> False (likewise for or)."""
+            def boolean_local(e_):
+                if not isinstance(e_, ast.Name):
+                    return False
+                defs_ = [a_ for a_ in ast.walk(fnode) if isinstance(a_, ast.Assign) and len(a_.targets) == 1 and
+                         isinstance(a_.targets[0], ast.Name) and a_.targets[0].id == e_.id]
+                stores_ = [x_ for x_ in ast.walk(fnode) if isinstance(x_, ast.Name) and x_.id == e_.id and isinstance(x_.ctx, ast.Store)]
+                if len(defs_) != 1 or len(stores_) != 1:
+                    return False
+                v_ = defs_[0].value
+                return (isinstance(v_, ast.Call) and isinstance(v_.func, ast.Name) and v_.func.id == 'bool') or \
+                    isinstance(v_, ast.Compare) or (isinstance(v_, ast.UnaryOp) and isinstance(v_.op, ast.Not))
+
+            class F(ast.NodeTransformer):
+                def visit_Compare(s2, node):
+                    s2.generic_visit(node)
+                    if len(node.ops) != 1:
+                        return node
+                    op_, l_, r_ = node.ops[0], node.left, node.comparators[0]
+                    if isinstance(op_, (ast.In, ast.NotIn)) and isinstance(l_, ast.Constant) and isinstance(r_, (ast.Tuple, ast.List)) and \
+                            r_.elts and all(isinstance(x_, ast.Constant) or pure(x_) for x_ in r_.elts):
+                        def same(a_, b_):
+                            return type(a_.value) is type(b_.value) and a_.value == b_.value
+                        if any(isinstance(x_, ast.Constant) and same(x_, l_) for x_ in r_.elts):
+                            res_ = ast.Constant(value=True)
+                        else:
+                            rest_ = [x_ for x_ in r_.elts if not isinstance(x_, ast.Constant)]
+                            if not rest_:
+                                res_ = ast.Constant(value=False)
+                            else:
+                                terms_ = [ast.Compare(left=x_, ops=[ast.Eq()], comparators=[ast.Constant(value=l_.value)]) for x_ in rest_]
+                                res_ = terms_[0] if len(terms_) == 1 else ast.BoolOp(op=ast.Or(), values=terms_)
+                        if isinstance(op_, ast.NotIn):
+                            res_ = ast.UnaryOp(op=ast.Not(), operand=res_) if not isinstance(res_, ast.Constant) else ast.Constant(value=not res_.value)
+                        return s2.visit(ast.copy_location(res_, node)) if not isinstance(res_, ast.Constant) else ast.copy_location(res_, node)
+                    if isinstance(op_, (ast.Eq, ast.Is)) and isinstance(r_, ast.Constant) and isinstance(r_.value, bool) and boolean_local(l_):
+                        return l_ if r_.value else ast.copy_location(ast.UnaryOp(op=ast.Not(), operand=l_), node)
+                    return node
+
+                def visit_BoolOp(s2, node):
+                    s2.generic_visit(node)
+                    is_and = isinstance(node.op, ast.And)
+                    vals_ = []
+                    for v_ in node.values:
+                        if isinstance(v_, ast.Constant) and isinstance(v_.value, bool):
+                            if v_.value == is_and:
+                                continue            # neutral element
+                            return ast.copy_location(ast.Constant(value=not is_and), node) if not vals_ else \
+                                ast.copy_location(ast.BoolOp(op=node.op, values=vals_ + [v_]), node)
+                        vals_.append(v_)
+                    if not vals_:
+                        return ast.copy_location(ast.Constant(value=is_and), node)
+                    return vals_[0] if len(vals_) == 1 else ast.copy_location(ast.BoolOp(op=node.op, values=vals_), node)
+            out_ = F().visit(stmt)
+            ast.fix_missing_locations(out_)
+            return out_
+
         for mod in self.modules.values():
             for fnode in [n for n in ast.walk(mod.tree) if isinstance(n, (ast.FunctionDef, ast.AsyncFunctionDef))]:
                 for _round in range(4):
@@ -1557,6 +1617,7 @@ class Program:
                                     for b in bs:
                                         for s_ in st.body:
                                             new_stmts.append(subst(s_, b))
+                                new_stmts = [fold_membership(fnode, s_) for s_ in new_stmts]
                                 blk[i:i + 1] = new_stmts
                                 changed = True
                                 break
@@ -2333,6 +2394,13 @@ class TypeEnv:
                 return t_list(self.elem_type(self.type_of(e.args[1])))
             if f.id == 'deepcopy' or f.id == 'copy':
                 return self.type_of(e.args[0]) if e.args else ANY
+            if f.id == 'next' and e.args and prog.resolve_name(self.mod, 'next') is None and 'next' not in self.vars:
+                # next(<iterable>[, default]): an element of it (or the default)
+                et = self.elem_type(self.type_of(e.args[0]))
+                if len(e.args) > 1:
+                    dt = self.type_of(e.args[1])
+                    return t_opt(et) if dt == NONE else union([et, dt])
+                return et
         fsym = prog.resolve_expr_symbol(self.mod, f) if isinstance(f, (ast.Name, ast.Attribute)) else None
         if isinstance(fsym, tuple) and fsym[0] == 'ext' and fsym[1] in EXT_OBJECT_FACTORIES:
             return ('extobj', fsym[1])
